@@ -59,6 +59,24 @@ class Cx:
             return list(y.values)
         raise ValueError(cls)
 
+    def bad_X(self, cls):
+        """exogenous data whose time index differs from the target's: moved, longer on either side, shorter"""
+        X = self.X
+        if cls == "shifted":
+            Xb = X.copy()
+            Xb.index = Xb.index + 2
+            return Xb
+        extra = pd.DataFrame({"a": [0.5, -0.5], "b": [1.0, 2.0]})
+        if cls == "longer":
+            extra.index = pd.RangeIndex(X.index[-1] + 1, X.index[-1] + 3)
+            return pd.concat([X, extra])
+        if cls == "longer-front":
+            extra.index = pd.RangeIndex(X.index[0] - 2, X.index[0])
+            return pd.concat([extra, X])
+        if cls == "shorter":
+            return X.iloc[:-2].copy()
+        raise ValueError(cls)
+
     def bad_fh(self, cls):
         if cls in ("empty-fh-object", "empty-abs-fh-object", "empty-array", "empty-index"):
             # the same empty horizon in the other containers a horizon may arrive in (the horizon class itself allows empty values)
@@ -98,8 +116,7 @@ def _fit_cell(fname, what, cls):
         if what == "y":
             bad = lambda: f.fit(cx.bad_y(cls), fh=fh)  # noqa
         elif what == "X":
-            Xb = cx.X.copy()
-            Xb.index = Xb.index + 1 if cls == "shifted" else pd.RangeIndex(len(Xb) + 2)[:len(Xb)] + (0 if cx.off else 2)
+            Xb = cx.bad_X(cls)
             bad = lambda: f.fit(cx.y.copy(), Xb, fh=fh)  # noqa
         else:
             bad = lambda: f.fit(cx.y.copy(), fh=cx.bad_fh(cls))  # noqa
@@ -301,10 +318,8 @@ def _evaluate_cell(defect):
             bad = dict(kw, scoring="mape")
         elif defect == "start_with_window-false":
             bad = dict(kw, cv=SlidingWindowSplitter(fh=[1, 2], window_length=10, step_length=4, start_with_window=False))
-        elif defect == "X-index":
-            Xb = cx.X.copy()
-            Xb.index = Xb.index + 2
-            bad = dict(kw, X=Xb)
+        elif defect.startswith("X-index"):
+            bad = dict(kw, X=cx.bad_X(defect[8:] or "shifted"))
             kw = dict(kw, X=cx.X.copy())
         return (lambda: evaluate(**bad)), (lambda: evaluate(**kw)), None
     return run
@@ -320,9 +335,8 @@ def _tts_cell(defect):
             return (lambda: tts(cx.y.copy(), fh=[1, 2], test_size=3)), (lambda: tts(cx.y.copy(), fh=[1, 2])), None
         if defect == "fh-in-sample":
             return (lambda: tts(cx.y.copy(), fh=[-1, 1])), (lambda: tts(cx.y.copy(), fh=[1, 2])), None
-        if defect == "X-index":
-            Xb = cx.X.copy()
-            Xb.index = Xb.index + 2
+        if defect.startswith("X-index"):
+            Xb = cx.bad_X(defect[8:] or "shifted")
             return (lambda: tts(cx.y.copy(), Xb, fh=[1, 2])), (lambda: tts(cx.y.copy(), cx.X.copy(), fh=[1, 2])), None
         if defect.startswith("fh:"):
             return (lambda: tts(cx.y.copy(), fh=cx.bad_fh(defect[3:]))), (lambda: tts(cx.y.copy(), fh=[1, 2])), None
@@ -377,7 +391,8 @@ for _f in FORECASTERS:
     for _d in ("different", "different-subset", "different-superset", "different-absolute", "different-one-step"):
         _add("predict:%s:fh:%s" % (_f, _d), _predict_cell(_f, _d))
     if _f in TAKES_X:
-        _add("fit:%s:X:index-differs" % _f, _fit_cell(_f, "X", "shifted"))
+        for _xc in ("shifted", "longer", "longer-front", "shorter"):
+            _add("fit:%s:X:index-differs:%s" % (_f, _xc), _fit_cell(_f, "X", _xc))
     for _c in ("unsorted", "dataframe", "ndarray"):
         _add("update:%s:y:%s" % (_f, _c), _update_cell(_f, _c))
 for _f in ("reduce-dir", "stack"):
@@ -413,9 +428,9 @@ for _d in ("ensemble:empty", "ensemble:dup-names", "ensemble:dunder-name", "ense
            "stack:non-forecaster", "stack:non-regressor-meta", "stack:name-clashes-param", "pipeline:dup-names", "pipeline:dunder-name", "pipeline:name-clashes-param",
            "pipeline:non-transformer-step", "pipeline:last-not-forecaster", "pipeline:forecaster-as-step"):
     _add("composite:" + _d, _composite_cell(_d))
-for _d in ["y:" + c for c in Y_CLASSES] + ["strategy", "cv-not-splitter", "scoring-not-callable", "start_with_window-false", "X-index"]:
+for _d in ["y:" + c for c in Y_CLASSES] + ["strategy", "cv-not-splitter", "scoring-not-callable", "start_with_window-false", "X-index", "X-index:longer", "X-index:longer-front", "X-index:shorter"]:
     _add("evaluate:" + _d, _evaluate_cell(_d))
-for _d in ["y:" + c for c in Y_CLASSES if c != "dataframe"] + ["fh-and-test_size", "fh-in-sample", "X-index"] + ["fh:" + c for c in ("dup", "empty", "frac", "str", "tuple", "empty-fh-object", "empty-abs-fh-object", "empty-array")]:
+for _d in ["y:" + c for c in Y_CLASSES if c != "dataframe"] + ["fh-and-test_size", "fh-in-sample", "X-index", "X-index:longer", "X-index:longer-front", "X-index:shorter"] + ["fh:" + c for c in ("dup", "empty", "frac", "str", "tuple", "empty-fh-object", "empty-abs-fh-object", "empty-array")]:
     _add("train_test_split:" + _d, _tts_cell(_d))
 for _c in ("dup", "empty", "frac", "str", "tuple", "set", "dup-array", "2d", "nan", "empty-fh-object", "empty-abs-fh-object", "empty-array", "empty-index"):
     _add("horizon:" + _c, _fhctor_cell(_c))
